@@ -394,7 +394,7 @@ def _gen_spec(seed):
         cands = [op for op in cands if (op.name.split(":")[2] if op.kind == "parse_xml" else op.name.split(":")[1]) in keep] or cands
     early = [op for op in cands if not op.needs]
     use_imports = rng.random() < 0.45
-    late_keys = rng.sample(["L1", "L2"], rng.choice([1, 2])) if use_imports else []
+    late_keys = rng.sample(["L1", "L2", "L3"], rng.choice([1, 2, 2, 3])) if use_imports else []
     threads = []
     for t in range(n):
         k = rng.choice([1, 1, 2, 2, 3, 4])
